@@ -160,6 +160,7 @@ type smWorld struct {
 	base   mapDump
 	a, b   *smSub
 	active map[string]net.IP // session id -> address, as learned at session_activate
+	sess   map[string]*subscriber.Session
 	terms  map[string]int    // session id -> number of session_terminate events
 	viols  []viol
 }
@@ -171,7 +172,7 @@ func (w *smWorld) add(kind, site, f string, a ...any) {
 }
 
 func newSMWorld(e *kenv, k kase) *smWorld {
-	w := &smWorld{e: e, k: k, active: map[string]net.IP{}, terms: map[string]int{}}
+	w := &smWorld{e: e, k: k, active: map[string]net.IP{}, terms: map[string]int{}, sess: map[string]*subscriber.Session{}}
 	e.clear()
 	w.natM = e.natManager(1)
 	w.qosM, _ = e.qosManager()
@@ -213,7 +214,9 @@ func (w *smWorld) close() {
 func (w *smWorld) onEvent(ev *subscriber.SessionEvent) {
 	switch ev.Type {
 	case subscriber.EventSessionActivate:
-		s, ok := w.mgr.GetSession(ev.SessionID)
+		// ActivateSession emits the event while holding the manager's lock: the handler
+		// must not call back into the manager, it uses the *Session CreateSession returned
+		s, ok := w.sess[ev.SessionID]
 		if !ok || s.IPv4 == nil {
 			return
 		}
@@ -245,6 +248,7 @@ func (w *smWorld) establish(c *smSub, prefix string) {
 		panic("harness: " + err.Error())
 	}
 	c.id = s.ID
+	w.sess[s.ID] = s
 	if prefix == "CREATED" {
 		return
 	}
